@@ -216,13 +216,32 @@ class ForkModel:
         is_fork_opt = lambda t: M.strip(t)[0] == "call" and M.strip(t)[1] == "posix::fork"
         self.child_edges = variant_edges(fn, self.T, is_fork_opt, 0, [0, 1], "std::option::Option<")
         self.parent_edges = variant_edges(fn, self.T, is_fork_opt, 1, [0, 1], "std::option::Option<")
-        if len(self.child_edges) != 1 or len(self.parent_edges) != 1:
+        if not self.child_edges or not self.parent_edges:
             self.ok = False
             return
-        self.child_entry = self.child_edges[0][1]
-        self.parent_entry = self.parent_edges[0][1]
-        self.child_region = fn.reachable(self.child_entry)
-        self.parent_region = fn.reachable(self.parent_entry)
+        # the fork result may be tested more than once (e.g. `matches!(r, Ok(None))` before the `match`): the regions are what is reachable
+        # from a child (parent) edge without crossing a parent (child) edge of any of these tests; the entries are those of the last test
+        def last(edges):
+            return max(edges, key=lambda e: sum(1 for o in edges if o != e and e[0] in fn.reachable(o[1])))
+        ce, pe = last(self.child_edges), last(self.parent_edges)
+        self.child_entry = ce[1]
+        self.parent_entry = pe[1]
+        # ... nor the failure edge of fork() itself (a later `r?` on the same value cannot fail once it was seen to be Ok(..))
+        is_fork_res = lambda t: t[0] == "call" and t[1] == "posix::fork"
+        fail_edges = set(variant_edges(fn, self.T, is_fork_res, 1, [0, 1], "std::result::Result<"))
+        fail_edges |= set(variant_edges(fn, self.T, lambda t: t[0] == "call" and t[1].endswith("as std::ops::Try>::branch") and t[2] and is_fork_res(t[2][0]), 1, [0, 1], "std::ops::ControlFlow<"))
+        # (flag-following traversal: a `matches!` result tested right after is a constant on each of these edges)
+        def region(edges, other):
+            out = set()
+            full = M.Explore(fn)
+            for e in edges:
+                states = full.state_at.get(e[0], [None])
+                for st_ in states:
+                    init = dict(full._step_state(e[0], st_)) if st_ is not None else None
+                    out |= M.Explore(fn, start=e[1], init=init, removed_edges=set(other) | fail_edges).blocks
+            return out
+        self.child_region = region(self.child_edges, self.parent_edges)
+        self.parent_region = region(self.parent_edges, self.child_edges)
         self.pre_region = fn.reachable(0, stop_blocks=[self.fork_bb])
 
     def child_roots(self):
